@@ -46,6 +46,10 @@ func c56(c *Ctx) {
 		if timerSel == nil || rnSel == nil {
 			panic(missingStep{"watcher: timer wait or resolve-now wait not found"})
 		}
+		// the pacing wait ends only on shutdown or when the timer fires: nothing else may cut it short
+		for _, st := range timerSel.States {
+			c.Expect(taf(st.Chan) || CallRes(CalleeX("context", "Context.Done"), 0)(st.Chan), timerSel, f, "pacing-wait-ends-only-on-timer-or-shutdown", "the wait between lookups can be ended by something other than its timer or shutdown (minimum interval / backoff not honoured)")
+		}
 		q := pathQuery{Fn: f, Starts: []ssa.Instruction{lk}, Barrier: func(in ssa.Instruction) bool { return in == ssa.Instruction(timerSel) }, Target: func(in ssa.Instruction) bool { return in == ssa.Instruction(lk) }}
 		c.MustPass("timer-wait-between-lookups", q, lk)
 		upd := CallRes(Callee("resolver", "ClientConn.UpdateState"), 0)
